@@ -5,59 +5,70 @@
    ClientLimiter takes on the history h (arrivals (time, address, cost) and collector runs) starting
    with an empty table; [lim_granted o k t0 t1 h ds] is the total cost granted for subnet key k at times
    within [t0, t1]. *)
-From Mos Require Import Base.Prelude Limit.Limiter Limit.LimiterProofs.
+From Mos Require Import Base.Prelude Limit.Limiter Limit.LimiterProofs Limit.LimiterConc Limit.LimiterConcProofs.
 Local Open Scope Z_scope.
 
-(* Window bound, histories without a collector run.  For every arrival sequence with non-decreasing
-   timestamps, every key and every window:
+(* Window bound.  For every history of arrivals AND collector runs with non-decreasing timestamps, every
+   rate > 0 and burst >= 0, every key and every window:
        granted * 10^9  <=  burst * 10^9 + rate * (t1 - t0) + (rate - 1)
    i.e. strictly less than  burst + rate * (window + 1 ns).  The last summand (< one nanosecond of refill)
    is x/time/rate's truncation of the wait time to whole nanoseconds; it is attained (C15_bound_slack_attained),
-   so the literal  burst + rate * window  can be exceeded by less than rate * 10^-9 token. *)
+   so the literal  burst + rate * window  can be exceeded by less than rate * 10^-9 token.
+   The collector (gc) is part of the history: it may run at any time.  It drops an entry only when the entry is
+   idle for more than entryTtl AND its bucket has refilled completely, so a dropped bucket and the full bucket
+   created at the subnet's next arrival are indistinguishable.  (Before the repair of finding K3 the collector
+   dropped every idle entry and the bound failed for burst > 60 * rate: the former statement C15_gc_refuted.) *)
 Theorem C15_bound : forall (o : opts) (k : lim_addr) (t0 t1 : Z) (h : list lev),
-  0 < o_limit o -> 0 <= o_burst o -> lim_sorted h = true -> has_gc h = false -> t0 <= t1 ->
+  0 < o_limit o -> 0 <= o_burst o -> lim_sorted h = true -> t0 <= t1 ->
   lim_granted o k t0 t1 h (lim_decisions o [] h) * SCALE
     <= o_burst o * SCALE + o_limit o * (t1 - t0) + (o_limit o - 1).
-Proof. exact bound_nogc. Qed.
+Proof. exact bound_general. Qed.
 Print Assumptions C15_bound.
 
-(* The same bound with arbitrary collector runs interleaved, provided burst <= 60 * rate
-   (entryTtl = 60 s: an entry idle for longer than a minute has refilled completely, so dropping it
-   loses nothing). *)
-Theorem C15_bound_gc : forall (o : opts) (k : lim_addr) (t0 t1 : Z) (h : list lev),
-  0 < o_limit o -> 0 <= o_burst o -> lim_sorted h = true -> o_burst o <= 60 * o_limit o -> t0 <= t1 ->
-  lim_granted o k t0 t1 h (lim_decisions o [] h) * SCALE
-    <= o_burst o * SCALE + o_limit o * (t1 - t0) + (o_limit o - 1).
-Proof. exact bound_gc. Qed.
-Print Assumptions C15_bound_gc.
-
-(* The bound for the options as configured (after setDefault), whatever was omitted. *)
+(* The bound for the options as configured (after setDefault), whatever was omitted; no side condition. *)
 Theorem C15_bound_configured : forall (cfg : opts) (k : lim_addr) (t0 t1 : Z) (h : list lev),
   let o := set_default cfg in
-  lim_sorted h = true -> (has_gc h = true -> o_burst o <= 60 * o_limit o) -> t0 <= t1 ->
+  lim_sorted h = true -> t0 <= t1 ->
   lim_granted o k t0 t1 h (lim_decisions o [] h) * SCALE
     <= o_burst o * SCALE + o_limit o * (t1 - t0) + (o_limit o - 1).
 Proof.
-  intros cfg k t0 t1 h o S G T. pose proof (default_wf cfg) as W. cbn zeta in W.
+  intros cfg k t0 t1 h o S T. pose proof (default_wf cfg) as W. cbn zeta in W.
   apply bound_general; auto; fold o in W; lia.
 Qed.
 Print Assumptions C15_bound_configured.
 
-(* Finding K3: with burst > 60 * rate the bound fails once the collector runs: a collected bucket is
-   reborn full.  Witness: rate 1, burst 1000; 2000 granted within 60.000000001 s, and the second
-   arrival is refused when the collector does not run. *)
-Theorem C15_gc_refuted : exists (o : opts) (k : lim_addr) (t0 t1 : Z) (h : list lev),
-  0 < o_limit o /\ 0 <= o_burst o /\ lim_sorted h = true /\ t0 <= t1 /\ 60 * o_limit o < o_burst o /\
-  ~ (lim_granted o k t0 t1 h (lim_decisions o [] h) * SCALE
-       <= o_burst o * SCALE + o_limit o * (t1 - t0) + (o_limit o - 1)).
+(* The collector is unobservable: for every history with non-decreasing timestamps the decisions taken for any
+   subnet are the decisions taken on the same arrivals when the collector never runs ([filter not_gc h]): forgetting an
+   idle, completely refilled entry loses nothing. *)
+Theorem C15_gc_unobservable : forall (o : opts) (k : lim_addr) (h : list lev),
+  0 < o_limit o -> 0 <= o_burst o -> lim_sorted h = true ->
+  lim_decisions_for o k h (lim_decisions o [] h) =
+  lim_decisions_for o k (filter not_gc h) (lim_decisions o [] (filter not_gc h)).
+Proof. exact gc_unobservable. Qed.
+Print Assumptions C15_gc_unobservable.
+
+(* Non-vacuity of the bound across collector runs, on the parameters of the former finding K3 (rate 1, burst 1000 >
+   60 * rate): the history  spend 1000 at t = 0, collector at 60.000000001 s, ask 1000 again  contains a collector
+   run, the entry survives it (only 60 of 1000 tokens have refilled), the second arrival is refused exactly as
+   without the collector, and the window bound holds (it did not before the repair: 2000 granted);
+   after 1000 s of silence the bucket is full again, the collector drops the entry, and the client is
+   rightly granted a new burst. *)
+Theorem C15_gc_keeps_unrefilled_entries :
+  lim_sorted k3_history = true /\ has_gc k3_history = true /\ 60 * o_limit k3_opts < o_burst k3_opts /\
+  lim_decisions k3_opts [] k3_history = [Some true; None; Some false] /\
+  lim_granted k3_opts k3_key 0 k3_t k3_history (lim_decisions k3_opts [] k3_history) * SCALE
+    <= o_burst k3_opts * SCALE + o_limit k3_opts * (k3_t - 0) + (o_limit k3_opts - 1) /\
+  lim_lookup k3_key (lim_final k3_opts [] [EvAllow 0 k3_client 1000; EvGc k3_t]) <> None /\
+  lim_lookup k3_key (lim_final k3_opts [] [EvAllow 0 k3_client 1000; EvGc (1000 * SCALE)]) = None /\
+  lim_decisions k3_opts [] [EvAllow 0 k3_client 1000; EvGc (1000 * SCALE); EvAllow (1000 * SCALE) k3_client 1000]
+    = [Some true; None; Some true].
 Proof.
-  exists k3_opts, k3_key, 0, k3_t, k3_history.
-  destruct k3_witness as (S & _ & B & _).
-  split; [reflexivity|]. split; [discriminate|]. split; [exact S|]. split; [discriminate|].
-  split; [reflexivity|].
-  intros H. apply Z.leb_le in H. unfold bound_ok, bound_ok_ds in B. rewrite H in B. discriminate.
+  destruct k3_witness as (S & G & D & B & _ & K & C & R).
+  split; [exact S|]. split; [exact G|]. split; [reflexivity|]. split; [exact D|].
+  split; [|split; [exact K|split; [exact C|exact R]]].
+  apply (C15_bound k3_opts k3_key 0 k3_t k3_history); [reflexivity|discriminate|exact S|discriminate].
 Qed.
-Print Assumptions C15_gc_refuted.
+Print Assumptions C15_gc_keeps_unrefilled_entries.
 
 (* The slack of one nanosecond of refill is attained (rate 3, burst 1): the literal bound
    burst + rate * window is exceeded by 10^-9 token. *)
@@ -124,6 +135,108 @@ Theorem C15_refusal_is_client_decision : forall (o : opts) (t : lim_table) (now 
 Proof. exact rl_allow_client. Qed.
 Print Assumptions C15_refusal_is_client_decision.
 
+(* ---- the limiter as the router configures it (app/router/limiter.go initResourceLimiter) ----
+
+   [lim_config] is LimiterConfig (yaml: limiter.global_limit, limiter.client.{limit,burst,v4_mask,v6_mask}; 0 = omitted),
+   [cfg_client c] the effective options of the client limiter the router builds from it (initResourceLimiter's
+   struct literal, then NewClientLimiter/setDefault), [cfg_mask4/6 c] the prefix length the property assigns to a family
+   ("IPv4 /24 and IPv6 /48 unless configured otherwise"), [cfg_subnet c a] the address truncated to the configured
+   mask of ITS family (arithmetically: x / 2^(w-m) * 2^(w-m)). *)
+
+(* The mapping: rate and burst as configured (omitted burst = rate); the v4 mask is v4_mask, the v6 mask is v6_mask,
+   /24 resp. /48 when the field is omitted (0), negative or larger than the family's width; no client limiter
+   without a positive limit. *)
+Theorem C15_config_mapping : forall c : lim_config,
+  (0 < lc_limit c ->
+   cfg_client c = Some (mkOpts (lc_limit c) (if lc_burst c <=? 0 then lc_limit c else lc_burst c) (cfg_mask4 c) (cfg_mask6 c))) /\
+  (lc_limit c <= 0 -> cfg_client c = None) /\
+  (lc_v4 c = 0 -> cfg_mask4 c = 24) /\ (lc_v6 c = 0 -> cfg_mask6 c = 48) /\
+  (1 <= lc_v4 c <= 32 -> cfg_mask4 c = lc_v4 c) /\ (1 <= lc_v6 c <= 128 -> cfg_mask6 c = lc_v6 c) /\
+  (lc_v4 c < 0 \/ 32 < lc_v4 c -> cfg_mask4 c = 24) /\ (lc_v6 c < 0 \/ 128 < lc_v6 c -> cfg_mask6 c = 48).
+Proof.
+  intros c. split; [apply config_opts|]. split; [apply config_no_client|].
+  unfold cfg_mask4, cfg_mask6.
+  repeat split; intros H;
+    try (destruct ((1 <=? lc_v4 c) && (lc_v4 c <=? 32)) eqn:E; lia);
+    try (destruct ((1 <=? lc_v6 c) && (lc_v6 c <=? 128)) eqn:E; lia).
+Qed.
+Print Assumptions C15_config_mapping.
+
+(* The subnet key of a client under a configuration is its address truncated to the CONFIGURED mask of ITS family:
+   the key the router's limiter charges (mask_addr under the effective options) is cfg_subnet; an IPv4 client's
+   subnet does not depend on v6_mask, an IPv6 client's subnet does not depend on v4_mask; a v4-mapped IPv6 client is
+   an IPv4 client; two clients of one family share a bucket iff they agree on the first <mask of that family> bits. *)
+Theorem C15_config_key : forall c : lim_config, 0 < lc_limit c ->
+  (forall a, cfg_key c a = Some (cfg_subnet c a)) /\
+  (forall o a, cfg_client c = Some o -> mask_addr o a = cfg_subnet c a) /\
+  (forall c' x, lc_v4 c = lc_v4 c' -> cfg_subnet c (LA4 x) = cfg_subnet c' (LA4 x)) /\
+  (forall c' x, lc_v6 c = lc_v6 c' -> (x / two32 <> 65535)%N -> cfg_subnet c (LA6 x) = cfg_subnet c' (LA6 x)) /\
+  (forall x, (x < two32)%N -> cfg_subnet c (LA6 (65535 * two32 + x)) = cfg_subnet c (LA4 x)) /\
+  (forall x y, cfg_subnet c (LA4 x) = cfg_subnet c (LA4 y) <->
+               (x / 2 ^ (32 - Z.to_N (cfg_mask4 c)) = y / 2 ^ (32 - Z.to_N (cfg_mask4 c)))%N) /\
+  (forall x y, (x / two32 <> 65535)%N -> (y / two32 <> 65535)%N ->
+               (cfg_subnet c (LA6 x) = cfg_subnet c (LA6 y) <->
+                (x / 2 ^ (128 - Z.to_N (cfg_mask6 c)) = y / 2 ^ (128 - Z.to_N (cfg_mask6 c)))%N)).
+Proof.
+  intros c L.
+  split; [intros a; now apply config_key|].
+  split; [intros o a; apply config_client_mask|].
+  split; [intros c' x; apply config_subnet_v4|].
+  split; [intros c' x; apply config_subnet_v6|].
+  split; [apply config_subnet_mapped|].
+  split; [apply config_same_v4|apply config_same_v6].
+Qed.
+Print Assumptions C15_config_key.
+
+(* Isolation for the composed system (configuration -> initResourceLimiter -> router.limiterAllowN, no global limit):
+   for every configuration, every subnet k (as the property defines subnets under that configuration) and every run
+   of arrivals (any order, any timestamps, any addresses incl. the invalid one), what the clients of k are told is
+   what they are told when only the arrivals from k happen. *)
+Theorem C15_config_isolation : forall (c : lim_config) (k : lim_addr) (t0 : Z) (h : list rl_arrival),
+  lc_global c <= 0 -> 0 < lc_limit c ->
+  rl_results_for c k h (rl_decisions (rl_of_config c t0) h) =
+  rl_results_for c k (filter (rl_from_subnet c k) h) (rl_decisions (rl_of_config c t0) (filter (rl_from_subnet c k) h)).
+Proof. exact config_isolation. Qed.
+Print Assumptions C15_config_isolation.
+
+(* The window bound for the client limiter of any configuration (subnet keys = cfg_subnet by C15_config_key),
+   collector runs included. *)
+Theorem C15_config_bound : forall (c : lim_config) (o : opts) (k : lim_addr) (t0 t1 : Z) (h : list lev),
+  cfg_client c = Some o -> lim_sorted h = true -> t0 <= t1 ->
+  lim_granted o k t0 t1 h (lim_decisions o [] h) * SCALE
+    <= o_burst o * SCALE + o_limit o * (t1 - t0) + (o_limit o - 1).
+Proof. exact config_bound. Qed.
+Print Assumptions C15_config_bound.
+
+(* ---- concurrent arrivals (Limit/LimiterConc.v) ----
+
+   AllowN is called from many goroutines.  [cc_run true] is the interleaving machine of the code: per call
+   (1) get-or-create the subnet's entry, ONE atomic step (xsync LoadOrCompute), (2) the bucket decision under the
+   entry's mutex.  For any number of simultaneous calls (one timestamp), any addresses and costs, and ANY schedule
+   of the micro-steps, the cost granted to one subnet is below burst + one nanosecond of refill: a subnet's FIRST
+   arrivals, however many race, share one bucket.
+   The proof rests on the atomicity of step (1) (invariant: every pointer a call holds is the map's current entry
+   of its subnet).  C15_split_create_refuted shows that it fails when (1) is a Load followed by a separate
+   create+Store.  On the real code this clause is tested (kind `limrace`), not proved: the tie between
+   xsync.MapOf.LoadOrCompute and the atomic step is the trusted part. *)
+Theorem C15_concurrent_first_arrivals : forall (o : opts) (calls : list rl_arrival) (now : Z) (sched : list nat) (k : lim_addr),
+  0 < o_limit o -> 0 <= o_burst o -> cc_at now calls ->
+  cc_granted o k calls (cc_pcs (cc_run true o calls sched)) * SCALE <= o_burst o * SCALE + (o_limit o - 1).
+Proof. intros o calls now sched k R B A. exact (atomic_bound o calls now R B A sched k). Qed.
+Print Assumptions C15_concurrent_first_arrivals.
+
+(* With a non-atomic get-or-create (Load, then create+Store on a miss) two racing first arrivals of one subnet are
+   each granted a full burst: rate 1, burst 10, two calls of cost 10 at one instant, 20 granted. *)
+Theorem C15_split_create_refuted : exists (o : opts) (calls : list rl_arrival) (now : Z) (sched : list nat) (k : lim_addr),
+  0 < o_limit o /\ 0 <= o_burst o /\ cc_at now calls /\
+  ~ (cc_granted o k calls (cc_pcs (cc_run false o calls sched)) * SCALE <= o_burst o * SCALE + (o_limit o - 1)).
+Proof.
+  exists ccw_opts, ccw_calls, 0, ccw_sched, ccw_key.
+  split; [reflexivity|]. split; [discriminate|]. split; [exact ccw_at|].
+  destruct cc_split_witness as (_ & G & _). rewrite G. vm_compute. intros H. apply H. reflexivity.
+Qed.
+Print Assumptions C15_split_create_refuted.
+
 (* ---- non-vacuity ---- *)
 
 (* 192.168.1.1 and 192.168.1.200 share a bucket, 192.168.2.1 does not; ::ffff:192.168.1.7 is charged to
@@ -151,3 +264,25 @@ Example C15_example :
      AQuery LmHttp ex_a1 false; AQuery LmTcp ex_b false; AConn LQuic ex_a1]
     = [OAnswered; OAnswered; ORefused; O503; OAnswered; OConnClosed].
 Proof. vm_compute. repeat split; try reflexivity. intros H; discriminate. Qed.
+
+(* v4_mask 32, v6_mask 56: 2001:db8:0:aa00::1 and 2001:db8:0:bb00::1 share the first 32 (and 48) bits but lie in
+   different /56: separate buckets; 2001:db8:0:aa77::9 shares 2001:db8:0:aa00::/56.  10.1.2.3 and 10.1.2.4 are
+   separate (/32).  With v4_mask 8, v6_mask 48 the IPv4 clients 10.1.2.3 and 10.200.0.1 share 10.0.0.0/8 while the
+   IPv6 clients keep /48. *)
+Definition ex_c : lim_config := mkLimCfg 0 1 5 32 56.
+Definition ex_6a : lim_addr := LA6 42540766411283395659206072791340154881%N.
+Definition ex_6b : lim_addr := LA6 42540766411283475939436281575308787713%N.
+Definition ex_6c : lim_addr := LA6 42540766411283397854368617562776797193%N.
+Example C15_config_example :
+  cfg_client ex_c = Some (mkOpts 1 5 32 56) /\
+  cfg_client (mkLimCfg 0 1 0 0 0) = Some (mkOpts 1 1 24 48) /\
+  cfg_client (mkLimCfg 0 1 0 33 129) = Some (mkOpts 1 1 24 48) /\
+  cfg_client (mkLimCfg 0 1 0 24 0) = Some (mkOpts 1 1 24 48) /\
+  cfg_client (mkLimCfg 0 1 0 0 64) = Some (mkOpts 1 1 24 64) /\
+  cfg_subnet ex_c ex_6a <> cfg_subnet ex_c ex_6b /\ cfg_subnet ex_c ex_6a = cfg_subnet ex_c ex_6c /\
+  cfg_subnet ex_c (LA4 167838211) <> cfg_subnet ex_c (LA4 167838212) /\
+  cfg_subnet (mkLimCfg 0 1 5 8 48) (LA4 167838211) = cfg_subnet (mkLimCfg 0 1 5 8 48) (LA4 180879361) /\
+  cfg_subnet (mkLimCfg 0 1 5 8 48) ex_6a = cfg_subnet (mkLimCfg 0 1 5 8 48) ex_6b /\
+  map rl_is_ok (rl_decisions (rl_of_config ex_c 0) [(0, ex_6a, 5); (0, ex_6a, 1); (0, ex_6c, 1); (0, ex_6b, 5); (0, ex_6b, 1)])
+    = [true; false; false; true; false].
+Proof. vm_compute. repeat split; try reflexivity; intros H; discriminate. Qed.
